@@ -423,8 +423,19 @@ fn fs_cancel(cfg: &Cfg) {
     }
     {
         let (w1, q1, g1) = (w.clone(), q.clone(), g.clone());
+        let bg_dep = BGate::new();
+        let dep = cfg.opt("dep", 0) == 1;
         hs.push(spawn(move || {
             let h = w1.future_sync(&q1, "FS", Body::gated(&g1));
+            if dep && mode == 0 {
+                // `dep`=1: an operation queued behind the future_sync blocks until the awaiting task has its result (it must be
+                // left to another runner, never run inside the poll that delivers the result)
+                w1.desync(&q1, "M-dep", Body::blocking(&bg_dep));
+                h.wait();
+                bg_dep.open();
+                w1.desync(&q1, "M2", Body::plain());
+                return;
+            }
             match mode {
                 0 => h.wait(),
                 1 => h.poll_then_drop(0),
